@@ -352,6 +352,12 @@ func (ex *Exec) visitInstr(fr *frame, instr ssa.Instruction) (ret bool) {
 	case *ssa.Send:
 		ex.chanSend(fr.get(instr.Chan).(*vchan), fr.get(instr.X))
 	case *ssa.Store:
+		if se, ok := fr.get(instr.Addr).(*symElem); ok {
+			// store through a symbolic index: concretise now
+			i := ex.index(se.idx, se.it, len(se.arr))
+			se.arr[i] = fr.get(instr.Val)
+			break
+		}
 		p := fr.get(instr.Addr).(*value)
 		if p == nil {
 			ex.rtPanic("invalid memory address or nil pointer dereference")
@@ -431,14 +437,24 @@ func (ex *Exec) visitInstr(fr *frame, instr ssa.Instruction) (ret bool) {
 		x := fr.get(instr.X)
 		switch x := x.(type) {
 		case []value:
-			i := ex.index(fr.get(instr.Index), instr.Index.Type(), len(x))
+			idx := fr.get(instr.Index)
+			if se := ex.symElemOf(x, idx, instr); se != nil {
+				fr.set(instr, se)
+				break
+			}
+			i := ex.index(idx, instr.Index.Type(), len(x))
 			fr.set(instr, &x[i])
 		case *value:
 			if x == nil {
 				ex.rtPanic("invalid memory address or nil pointer dereference")
 			}
 			a := (*x).(array)
-			i := ex.index(fr.get(instr.Index), instr.Index.Type(), len(a))
+			idx := fr.get(instr.Index)
+			if se := ex.symElemOf([]value(a), idx, instr); se != nil {
+				fr.set(instr, se)
+				break
+			}
+			i := ex.index(idx, instr.Index.Type(), len(a))
 			fr.set(instr, &a[i])
 		default:
 			panic(fmt.Sprintf("IndexAddr on %T", x))
@@ -513,6 +529,39 @@ func (ex *Exec) index(idx value, it types.Type, n int) int {
 		ex.rtPanic(fmt.Sprintf("index out of range [%d] with length %d", i, n))
 	}
 	return int(i)
+}
+
+// symElem is the address of arr[idx] for a symbolic idx into a table of
+// integer scalars whose only uses are loads and stores: a load becomes an ite
+// chain (indexVal) instead of a fork over every feasible index.
+type symElem struct {
+	arr []value
+	idx value
+	it  types.Type
+	et  types.Type
+}
+
+func (ex *Exec) symElemOf(arr []value, idx value, instr *ssa.IndexAddr) *symElem {
+	if _, ok := idx.(*sym.Term); !ok {
+		return nil
+	}
+	et := deref(instr.Type())
+	if basicKind(et).cls != clsInt || len(arr) > 512 {
+		return nil
+	}
+	for _, r := range *instr.Referrers() {
+		switch r := r.(type) {
+		case *ssa.UnOp:
+		case *ssa.Store:
+			if r.Addr != instr {
+				return nil
+			}
+		case *ssa.DebugRef:
+		default:
+			return nil
+		}
+	}
+	return &symElem{arr: arr, idx: idx, it: instr.Index.Type(), et: et}
 }
 
 // inRange: 0 <= t < n for an index term of kind k (n may exceed the index
